@@ -21,6 +21,8 @@ type CountQuery struct {
 	Event func(ssa.Instruction) int
 	// EdgeOK filters edges (nil = all).
 	EdgeOK func(from *ssa.BasicBlock, succ int) bool
+	// EdgeEvent gives a weight to taking the edge from -> from.Succs[succ] (nil = none).
+	EdgeEvent func(from *ssa.BasicBlock, succ int) int
 	// Cut: paths stop (and are dropped, not counted) before an instruction for which Cut returns true.
 	Cut func(ssa.Instruction) bool
 }
@@ -64,6 +66,7 @@ func (q CountQuery) Run() CountResult {
 	type key struct {
 		b       node
 		partial bool
+		edge    int // >0: virtual node standing for the edge b -> b.Succs[edge-1]
 	}
 	succs := map[key][]key{}
 	ends := map[key][]string{} // end labels directly after this node
@@ -99,18 +102,31 @@ func (q CountQuery) Run() CountResult {
 			if q.EdgeOK != nil && !q.EdgeOK(k.b, si) {
 				continue
 			}
+			src := k
+			if q.EdgeEvent != nil {
+				if w := q.EdgeEvent(k.b, si); w > 0 {
+					vk := key{k.b, false, si + 1}
+					if !seen[vk] {
+						seen[vk] = true
+						order = append(order, vk)
+						evs[vk] = w
+					}
+					succs[k] = append(succs[k], vk)
+					src = vk
+				}
+			}
 			if q.Stop != nil {
 				if stop, label := q.Stop(k.b, s); stop {
-					ends[k] = append(ends[k], label)
+					ends[src] = appendUniqStr(ends[src], label)
 					continue
 				}
 			}
-			nk := key{s, false}
-			succs[k] = append(succs[k], nk)
+			nk := key{s, false, 0}
+			succs[src] = append(succs[src], nk)
 			build(nk)
 		}
 	}
-	start := key{startB, startIdx > 0}
+	start := key{startB, startIdx > 0, 0}
 	build(start)
 	// Tarjan SCC
 	index := map[key]int{}
@@ -286,4 +302,13 @@ func IterationStop(l *Loop) func(from, to *ssa.BasicBlock) (bool, string) {
 		}
 		return false, ""
 	}
+}
+
+func appendUniqStr(s []string, x string) []string {
+	for _, y := range s {
+		if y == x {
+			return s
+		}
+	}
+	return append(s, x)
 }
